@@ -1,4 +1,5 @@
 import Pymeeus.Refine.Interpolation
+import Pymeeus.Refine.Derivative
 import Mathlib.Tactic.Positivity
 /-
 Partial correctness of `Interpolation.root`: the loop invariant
@@ -362,6 +363,149 @@ theorem root_step_halves {o : Interp} {m : Int} {s s' : RootState} {yp : ℚ}
     rw [hc] at h
     simp only [bind, Except.bind, pure, Except.pure] at h
     split_ifs at h <;> (injection h with h; subst h; simp only; ring)
+
+/-- What `root` does before the loop, given its limits and the interpolant at them. -/
+theorem root_entry {o : Interp} {xl xh A B yl yh : ℚ} (m : Int)
+    (hlim : root_limits o xl xh = .ok (A, B)) (hyl : call o A = .ok yl) (hyh : call o B = .ok yh) :
+    (|yl| < o.tol → root o xl xh m = .ok A) ∧
+    (¬ |yl| < o.tol → |yh| < o.tol → root o xl xh m = .ok B) ∧
+    (¬ |yl| < o.tol → ¬ |yh| < o.tol → 0 < yl * yh → root o xl xh m = .error .valueError) := by
+  unfold root
+  rw [hlim]
+  simp only [bind, Except.bind, hyl, hyh, plt, pabs_eq, zero_lit']
+  refine ⟨fun h => ?_, fun h1 h2 => ?_, fun h1 h2 h3 => ?_⟩
+  · simp [h, pure, Except.pure]
+  · simp [h1, h2, pure, Except.pure]
+  · simp [h1, h2, h3]
+
+/-- Limits closer than the tolerance are refused. -/
+theorem root_limits_equal {o : Interp} (hx : o.x ≠ []) {xl xh : ℚ} (hnd : ¬ (xl = 0 ∧ xh = 0))
+    (hc : |xl - xh| < o.tol) : root_limits o xl xh = .error .valueError := by
+  unfold root_limits
+  cases hxs : o.x with
+  | nil => exact absurd hxs hx
+  | cons x0 xr =>
+    simp only
+    have c : (peq xl 0 && peq xh 0) = false := by
+      simp only [peq, Bool.and_eq_false_iff, decide_eq_false_iff_not]
+      by_cases hxl : xl = 0
+      · right; exact fun e => hnd ⟨hxl, e⟩
+      · left; exact hxl
+    rw [c]
+    simp only [Bool.false_eq_true, if_false, plt, pabs_eq, hc, decide_true, if_true]
+
+/-- `__call__` on a constructed object: a value inside the table, a value or ValueError anywhere. -/
+theorem call_in_range {o : Interp} (h : WF o) {x : ℚ} (hx : xfirst o ≤ x ∧ x ≤ xlast o) : ∃ y, call o x = .ok y := by
+  rw [call_eq h]
+  cases node_hit o.tol x o.x o.y with
+  | some v => exact ⟨v, rfl⟩
+  | none =>
+    have : ¬ (x < xfirst o ∨ xlast o < x) := by
+      intro hh; rcases hh with hh | hh <;> linarith [hx.1, hx.2]
+    simp only [this, if_false]
+    exact ⟨_, rfl⟩
+
+theorem call_value_or_valueError {o : Interp} (h : WF o) (x : ℚ) :
+    (∃ y, call o x = .ok y) ∨ call o x = .error .valueError := by
+  rw [call_eq h]
+  cases node_hit o.tol x o.x o.y with
+  | some v => exact Or.inl ⟨v, rfl⟩
+  | none =>
+    simp only
+    split_ifs
+    · exact Or.inr rfl
+    · exact Or.inl ⟨_, rfl⟩
+
+/-- Inside a bracket that lies in the table and has opposite signs at its ends, the loop body never raises. -/
+theorem root_next_ok {o : Interp} (h : WF o) {s : RootState} (hx : s.xl ≤ s.xh) (hs : s.yl * s.yh < 0)
+    (hin : xfirst o ≤ s.xl ∧ s.xh ≤ xlast o) (hxin : s.xl ≤ s.x ∧ s.x ≤ s.xh) :
+    ∃ p, root_next o s = .ok p := by
+  have hfb : ∃ xf, root_fallback s = .ok xf := by
+    unfold root_fallback
+    split_ifs
+    · exact ⟨_, rfl⟩
+    · unfold pdiv
+      have : s.yh - s.yl ≠ 0 := by
+        intro e
+        have : s.yh = s.yl := by linarith
+        rw [this] at hs
+        nlinarith [mul_self_nonneg s.yl]
+      simp only [peq, this, decide_false, Bool.false_eq_true, if_false]
+      exact ⟨_, rfl⟩
+  obtain ⟨xf, hxf⟩ := hfb
+  obtain ⟨f1, f2⟩ := root_fallback_between hx hs hxf
+  obtain ⟨yf, hyf⟩ := call_in_range h (x := xf) ⟨by linarith [hin.1], by linarith [hin.2]⟩
+  unfold root_next
+  rw [derivative_eq h ⟨by linarith [hin.1, hxin.1], by linarith [hin.2, hxin.2]⟩]
+  simp only [bind, Except.bind]
+  split_ifs with hsmall
+  · rw [hxf]; simp only [hyf, pure, Except.pure]; exact ⟨_, rfl⟩
+  · have hyp : (Polynomial.derivative (poly o)).eval s.x ≠ 0 := by
+      intro e
+      apply hsmall
+      rw [e]; simp only [plt, pabs_eq, abs_zero, decide_eq_true_eq]; norm_num
+    unfold pdiv
+    simp only [peq, hyp, decide_false, Bool.false_eq_true, if_false]
+    split_ifs with hout
+    · rw [hxf]; simp only [hyf, pure, Except.pure]; exact ⟨_, rfl⟩
+    · simp only [plt, Bool.or_eq_true, decide_eq_true_eq, not_or, not_lt] at hout
+      obtain ⟨yn, hyn⟩ := call_in_range h
+        (x := s.x - s.y / (Polynomial.derivative (poly o)).eval s.x)
+        ⟨by linarith [hin.1, hout.1], by linarith [hin.2, hout.2]⟩
+      simp only [hyn, pure, Except.pure]; exact ⟨_, rfl⟩
+
+/-- `root` returns a value or raises ValueError — nothing else (limits `A ≤ B` inside the table). -/
+theorem root_total_core {o : Interp} (h : WF o) (h0 : 0 < o.tol) {xl xh A B : ℚ} (m : Int)
+    (hlim : root_limits o xl xh = .ok (A, B)) (hAB : A ≤ B) (hA : xfirst o ≤ A) (hB : B ≤ xlast o) :
+    (∃ v, root o xl xh m = .ok v) ∨ root o xl xh m = .error .valueError := by
+  obtain ⟨yl, hyl⟩ := call_in_range h (x := A) ⟨hA, by linarith⟩
+  obtain ⟨yh, hyh⟩ := call_in_range h (x := B) ⟨by linarith, hB⟩
+  obtain ⟨e1, e2, e3⟩ := root_entry m hlim hyl hyh
+  by_cases c1 : |yl| < o.tol
+  · exact Or.inl ⟨A, e1 c1⟩
+  by_cases c2 : |yh| < o.tol
+  · exact Or.inl ⟨B, e2 c1 c2⟩
+  by_cases c3 : 0 < yl * yh
+  · exact Or.inr (e3 c1 c2 c3)
+  have hyl0 : yl ≠ 0 := by intro e; rw [e, abs_zero] at c1; exact c1 h0
+  have hyh0 : yh ≠ 0 := by intro e; rw [e, abs_zero] at c2; exact c2 h0
+  have hsign : yl * yh < 0 := lt_of_le_of_ne (not_lt.mp c3) (mul_ne_zero hyl0 hyh0)
+  obtain ⟨ym, hym⟩ := call_in_range h (x := (A + B) / 2.0) (by rw [two_lit']; constructor <;> linarith)
+  have hroot : root o xl xh m = (match loopFuel (root_step o m) (m.toNat + 1) ⟨A, B, yl, yh, (A + B) / 2.0, ym, 0⟩ with
+      | some r => r | none => .error .other) := by
+    unfold root
+    rw [hlim]
+    simp only [bind, Except.bind, hyl, hyh, plt, pabs_eq, zero_lit', c1, c2, c3, decide_false, Bool.false_eq_true,
+      if_false, hym]
+    rfl
+  have hinit : RootInv o A B ⟨A, B, yl, yh, (A + B) / 2.0, ym, 0⟩ := by
+    refine ⟨le_refl _, hAB, le_refl _, ?_, ?_, hym, Or.inl hsign⟩
+    · show A ≤ (A + B) / 2.0
+      rw [two_lit']; linarith
+    · show (A + B) / 2.0 ≤ B
+      rw [two_lit']; linarith
+  have hstep : ∀ s, RootInv o A B s → (∀ s', root_step o m s = .inl s' → RootInv o A B s') ∧
+      (∀ r, root_step o m s = .inr r → ((∃ v, r = .ok v) ∨ r = .error .valueError)) := by
+    intro s hs
+    refine ⟨(root_step_inv m h0.le hs).1, ?_⟩
+    obtain ⟨i1, i2, i3, i4, i5, i6, i7⟩ := hs
+    intro r hr
+    unfold root_step at hr
+    split_ifs at hr with q1 q2
+    · injection hr with hr; exact Or.inl ⟨_, hr.symm⟩
+    · injection hr with hr; exact Or.inr hr.symm
+    · have hbig : o.tol < |s.y| := by simpa [plt, pabs_eq] using q1
+      have hy0 : s.y ≠ 0 := by intro e; rw [e, abs_zero] at hbig; linarith
+      obtain ⟨p, hp⟩ := root_next_ok h i2 (i7.resolve_right hy0) ⟨by linarith, by linarith⟩ ⟨i4, i5⟩
+      rw [hp] at hr
+      simp only at hr
+      split_ifs at hr
+  rw [hroot]
+  cases hloop : loopFuel (root_step o m) (m.toNat + 1) ⟨A, B, yl, yh, (A + B) / 2.0, ym, 0⟩ with
+  | none => exact absurd hloop (root_loop_terminates o m _ _ (by simp))
+  | some r =>
+    simp only
+    exact loopFuel_post (root_step o m) (RootInv o A B) _ hstep _ _ hinit r hloop
 
 theorem root_ok_limits {o : Interp} {xl xh v : ℚ} {m : Int} (hr : root o xl xh m = .ok v) :
     ∃ A B, root_limits o xl xh = .ok (A, B) := by
